@@ -182,6 +182,13 @@ def run(repo, harnesses, workdir, tier, seed, jobs=None, concrete=True):
             rec['reason'] = 'timeout'
         if r['status'] == 'refuted' and concrete:
             rec['counterexample'] = concrete_playback(crate, h['name'], env, workdir)
+            if rec['counterexample'] and rec['counterexample'].get('values'):
+                # replay the verifier's counterexample natively on the real code (tree under check)
+                try:
+                    import kreplay
+                    rec['counterexample']['native_replay'] = kreplay.build_and_run(repo, h['name'], [v['bytes'] for v in rec['counterexample']['values']])
+                except Exception as e:   # never let the replay break the verdict
+                    rec['counterexample']['native_replay'] = {'replayed': False, 'reason': 'replay tool error: %s' % e}
         out['harnesses'].append(rec)
         for a in h.get('assumes', []):
             out['trusted'].append('kani harness %s: %s' % (h['name'], a))
